@@ -9,20 +9,28 @@ cd "$VERIF_ROOT/mc" || exit 2
 mkdir -p "$VERIF_ROOT/.build"
 B=$(mktemp -d "$VERIF_ROOT/.build/bin-$ID-XXXXXX")
 trap 'rm -rf "$B"' EXIT
-cp /repo/go.sum go.sum 2>/dev/null
-if ! go build -tags verif -o "$B/vcheck" ./cmd/vcheck 2>"$B/build.log"; then
+# VERIF_REPO (default /repo) points the whole build at another copy of the repository; it is only used to try
+# seeded changes in a scratch worktree (together with VERIF_OUT, which redirects evidence/ and replays/).
+REPO=${VERIF_REPO:-/repo}
+MODFLAG=
+cp "$REPO/go.sum" go.sum 2>/dev/null
+if [ "$REPO" != /repo ]; then
+  sed "s#=> /repo#=> $REPO#" go.mod > "$B/go.mod"; cp go.sum "$B/go.sum"; MODFLAG="-modfile=$B/go.mod"
+  export VERIF_REPO="$REPO"
+fi
+if ! go build $MODFLAG -tags verif -o "$B/vcheck" ./cmd/vcheck 2>"$B/build.log"; then
   echo "BUILD-ERROR property=$ID (harness or /repo does not compile with -tags verif)" >&2
   cat "$B/build.log" >&2
   exit 2
 fi
 case "$ID" in C08|C12|C15|C16|C17|C18|C19)
   # the real command, for the deterministic slice that cross-checks the in-process driver
-  (cd /repo && go build -o "$B/gojq" ./cmd/gojq) 2>>"$B/build.log" || { echo "BUILD-ERROR property=$ID (cmd/gojq does not build)" >&2; cat "$B/build.log" >&2; exit 2; } ;;
+  (cd "$REPO" && go build -o "$B/gojq" ./cmd/gojq) 2>>"$B/build.log" || { echo "BUILD-ERROR property=$ID (cmd/gojq does not build)" >&2; cat "$B/build.log" >&2; exit 2; } ;;
 esac
 if [ "$ID" = C06 ]; then
   # the race-enabled harness, with the gojq sources' "sync" import rewritten to the scheduling shim (overlay; /repo untouched)
-  python3 "$VERIF_ROOT/tools/mkoverlay.py" "$B" >>"$B/build.log" 2>&1 &&
-  go build -race -tags verif -overlay "$B/overlay.json" -o "$B/c06h" ./cmd/c06h 2>>"$B/build.log" || { echo "BUILD-ERROR property=$ID (the race-enabled harness does not build)" >&2; cat "$B/build.log" >&2; exit 2; }
+  python3 "$VERIF_ROOT/tools/mkoverlay.py" "$B" "$REPO" >>"$B/build.log" 2>&1 &&
+  go build $MODFLAG -race -tags verif -overlay "$B/overlay.json" -o "$B/c06h" ./cmd/c06h 2>>"$B/build.log" || { echo "BUILD-ERROR property=$ID (the race-enabled harness does not build)" >&2; cat "$B/build.log" >&2; exit 2; }
 fi
 export VCHECK_BIN_DIR="$B"
 "$B/vcheck" run "$ID" "$TIER"
